@@ -137,7 +137,17 @@ func Run(c *core.Ctx) core.FinishOpts {
 			add("probe", p.tag, p.sql, []string{"-o", "json", "--describe"}, nil)
 		}
 	}
-	c.Note("probe_queries", len(ps))
+	sps := stdinProbes()
+	for _, p := range sps {
+		add("probe", p.tag, p.sql, p.flags, p.stdin)
+		if c.Tier == "thorough" {
+			for _, m := range modes[1:] {
+				add("probe", p.tag, p.sql, []string{"-o", m}, p.stdin)
+			}
+			add("probe", p.tag, p.sql, []string{"-o", "json", "--optimize=false"}, p.stdin)
+		}
+	}
+	c.Note("probe_queries", len(ps)+len(sps))
 
 	// scenario queries as they are
 	for _, s := range scen {
